@@ -2,7 +2,8 @@
 
 Exhaustive sweep: every byte string up to a length bound over an 8-letter
 alphabet (one representative per decoding class) x every placement of one
-symbolic region [i,j) x two representations of the code, compared with a
+symbolic region [i,j) x three representations of the code (chunk list; one term or hex
+string; window of a bigger, patched buffer), compared with a
 20-line reference decoder; then jump programs through the real SEVM.run.
 """
 
@@ -91,6 +92,16 @@ def build_contract(bs, i, j, rep):
         return Contract(term), sym
     if rep == "hex":
         return Contract.from_hexcode(bytes(bs).hex()), None
+    if rep == "view":
+        # the code is a window of a bigger buffer (a prefix of returned memory; a runtime template patched afterwards, as for immutables):
+        # stale JUMPDEST / PUSH bytes follow the window, and the region was a run of JUMPDEST placeholders before it was overwritten
+        junk = bytes([0x5B, 0x60, 0x5B, 0x5B])
+        buf = bytearray(bs)
+        buf[i:j] = bytes([0x5B]) * n
+        big = ByteVec(bytes(buf) + junk)
+        if n:
+            big.set_slice(i, j, ByteVec(sym))
+        return Contract(big.slice(0, len(bs))), sym
     raise ValueError(rep)
 
 
@@ -560,7 +571,7 @@ def run_shard(shard):
         for bs in strings_for(shard):
             n = len(bs)
             for (i, j) in regions(n, n <= full):
-                reps = ["chunks", "term"] if j > i else ["chunks", "hex"]
+                reps = ["chunks", "term", "view"] if j > i else ["chunks", "hex", "view"]
                 for rep in reps:
                     acc.count("contracts")
                     bad = check_contract(bs, i, j, rep)
@@ -620,7 +631,7 @@ def coverage(tier, merged):
         "evaluations": ev,
         "distinct_nontrivial": c.get("distinct_codes", 0) + c.get("jump_programs", 0),
         "rule": (
-            f"every byte string of length <= {full} over the 8-letter alphabet x every symbolic region [i,j) x 2 code representations, "
+            f"every byte string of length <= {full} over the 8-letter alphabet x every symbolic region [i,j) x 3 code representations (chunk list, one term / hex string, window of a bigger patched buffer), "
             f"plus length <= {split_only} with every concrete-prefix/symbolic-suffix split; per contract: len, valid_jumpdests, [k] for all k, "
             f"decode_instruction(pc) for all pc (twice), slice(start,size) on the full grid; plus every jump program JUMP/JUMPI(cond 0/1) "
             f"to every target over bodies of length <= {jl}, run by SEVM.run against a reference interpreter. "
